@@ -145,6 +145,17 @@ def gen_line(rng, rich):
 
 
 def gen_content(rng, rich, tag):
+    if rich and rng.random() < 0.012:
+        # very many lines (a log): more than any block / batch size a writer might use, with empty lines sitting on
+        # the power-of-two boundaries as well as anywhere else
+        n = rng.choice([4097, 8191, 8192, 8193, 8200, 16384, 16400, 24577])
+        lines = []
+        for k in range(n):
+            if ((k + 1) % 1024 == 0 and rng.random() < 0.5) or rng.random() < 0.01:
+                lines.append("")
+            else:
+                lines.append("%s:%d" % (tag, k))
+        return lines
     n = rng.choice([0, 1, 1, 2, 3, 5, 8]) if rich else rng.choice([1, 2, 3])
     lines = ["%s:%d:%s" % (tag, k, gen_line(rng, rich)) if rng.random() > 0.15 or not rich else gen_line(rng, rich) for k in range(n)]
     if rich:
@@ -248,6 +259,8 @@ def gen_case(st, tier, flavour):
                 sp["save_as"] = rp.choice(["renamed_" + sp["name"], "saved/dir_%s/" % sp["name"], "{BASE}/absout/renamed_" + sp["name"]])
             if rf.random() < 0.1:
                 sp["path"], sp["how"] = "/etc/does-not-exist", "missing"
+            if k == "simple_file" and rk.random() < 0.06:
+                sp["kind_sub"] = True            # simple_file(..., kind=<a sub-class of TextFileProvider>)
         elif k == "glob_file":
             d = rp.choice(["etc/conf.d", "etc/yum.repos.d"])
             for n in rp.sample(["a", "b", "c", "d"], rp.randint(0, 3)):
@@ -473,6 +486,15 @@ class Gds(object):
         return self.fn(broker)
 
 
+class SubTextFileProvider(TextFileProvider):
+    """A user's own provider kind (simple_file(..., kind=...)): a sub-class without a serializer of its own."""
+    pass
+
+
+SubTextFileProvider.__module__ = MOD
+_mod.SubTextFileProvider = SubTextFileProvider
+
+
 def seeded_factory(cls):
     """The real factory class with a seeded __hash__: factory objects live in the engine's sets, and an address-based
     hash would leave the order in which specs are collected (hence the order of every I/O event) to the allocator."""
@@ -543,7 +565,8 @@ def build_specs(case, env):
             return g
         if k in ("simple_file", "raw_file"):
             impl_body[name] = F["simple_file"](env.spec_path(sp["path"]), save_as=sp["save_as"], context=Ctx, _h=hh,
-                                               kind=RawFileProvider if k == "raw_file" else TextFileProvider)
+                                               kind=RawFileProvider if k == "raw_file" else (
+                                                   SubTextFileProvider if sp.get("kind_sub") else TextFileProvider))
         elif k == "glob_file":
             impl_body[name] = F["glob_file"]([env.spec_path(p) for p in sp["patterns"]], save_as=sp["save_as"], ignore=sp.get("ignore"),
                                              context=Ctx, _h=hh)
